@@ -848,7 +848,8 @@ func (w *W) opMerge() string {
 
 	// known finding O30: next to a "**" option, an explicit option whose path runs through a list
 	// index is lost when the node of the option tree that holds the index entry also holds an
-	// explicit named entry (another option with the same prefix that continues with a name)
+	// explicit named entry (another option with the same prefix that continues with a name, or
+	// an option for the list itself)
 	if len(mo.Fields) > 0 {
 		wild, hit := false, false
 		isIdx := func(x string) bool { _, err := strconv.Atoi(x); return err == nil }
@@ -866,7 +867,9 @@ func (w *W) opMerge() string {
 					continue
 				}
 				for _, q := range mo.Fields {
-					if q.Wild || len(q.Path) <= i || isIdx(q.Path[i]) {
+					// q adds a named entry to the node: it continues with a name below the same
+					// prefix, or it is an option for the list itself (its handling marker "*")
+					if q.Wild || len(q.Path) < i || (len(q.Path) > i && isIdx(q.Path[i])) || (len(q.Path) == i && i == 0) {
 						continue
 					}
 					same := true
